@@ -257,6 +257,13 @@ def run_launch(params, order):
                     viol.append(('step-raised', '%s/%s' % (step, type(e).__name__), '%r' % (e,)))
                     break
                 n = len(rec.fires)
+                # (the launch is decided when the process protocol's when_connected() fires; launch() itself then still waits for
+                # the configuration to be read)
+                if step == 'T' and not early.fires:
+                    viol.append(('launch-pending-after-failure-condition', 'timed-out/right-after-timeout',
+                                 'the timeout elapsed after %r and the launch is still undecided' % (log,)))
+                if step == 'T' and early.fires and early.kind == 'err' and not state['ended'] and 'TERM' not in [str(x) for x in pt.signals]:
+                    viol.append(('no-term-on-timeout', 'x', 'the timeout elapsed with the launch undecided (%r); signals sent: %r' % (log, pt.signals)))
                 if step == 'X' and n == 0:
                     viol.append(('launch-pending-after-failure-condition', 'ended/right-after-exit',
                                  'the process ended (%s) after %r and the launch result has not fired' % (params['exit'], log)))
